@@ -23,7 +23,7 @@ import (
 
 const rule = "one sub-check per format, both directions judged against generated ground truth through a reader / writer that shares no code with yq: " +
 	"properties (own emitter and reader written from the .properties format: separators, escapes, unicode, numeric path segments as sequences); CSV / TSV (encoding/csv: separators, quotes, CR/LF, empty fields; arrays of objects and of rows); XML (own emitter validated by encoding/xml, encoding/xml tokeniser on yq's output: attributes, text, repeated children as sequences, nesting); TOML decode (documents written by BurntSushi/toml's encoder and a hand grammar for dotted keys, inline tables, arrays of tables, integer spellings; value compared with BurntSushi's reading); Lua (own emitter; yq's output executed by gopher-lua); base64 / URI (Go standard library); plus the in-expression pairs (to_json/from_json, to_yaml/from_yaml, @base64/@base64d, @uri/@urid, to_props/from_props, @csv/from_csv, @tsv/from_tsv, to_xml/from_xml) as x | enc | dec == x. " +
-	"non-trivial = a character the format must quote or escape, nesting depth >= 2, or a repeated XML element / array of tables; distinct by (format, direction, input)"
+	"non-trivial = a character the format must quote or escape, nesting depth >= 2, or a repeated XML element / array of tables; distinct by (format, direction, input) Further subs: lua_keys (tables with explicit integer keys incl. 0 and negatives, fractional and boolean keys in every order; keys exactly 1..n make a sequence, anything else a map of all keys), base64_file (inputs ending in a line end, wrapped at 76 columns, CRLF, without padding, and -o base64 against the standard library), toml_floats (nan / inf spellings with signs)."
 
 func TestMain(m *testing.M) {
 	hx.Main(m, "C14", rule,
